@@ -541,3 +541,486 @@ Proof.
   unfold pc_observe, pc_text_canonical, pc_entry_text. rewrite Hc. f_equal.
   apply pc_bytes_eqb_eq. reflexivity.
 Qed.
+
+(* ================================================================ the file system as a state *)
+
+Lemma pc_bytes_eqb_refl : forall c, pc_bytes_eqb c c = true.
+Proof. intro c. now apply pc_bytes_eqb_eq. Qed.
+
+Lemma pc_bytes_eqb_false : forall a b, pc_bytes_eqb a b = false <-> a <> b.
+Proof.
+  intros a b. split.
+  - intros H E. subst. rewrite pc_bytes_eqb_refl in H. discriminate H.
+  - intro H. destruct (pc_bytes_eqb a b) eqn:E; [|reflexivity]. apply pc_bytes_eqb_eq in E. contradiction.
+Qed.
+
+Lemma pc_assoc_put_same : forall c x es, pc_assoc c (pc_put c x es) = Some x.
+Proof.
+  intros c x. induction es as [|[k n] es IH]; cbn.
+  - now rewrite pc_bytes_eqb_refl.
+  - destruct (pc_bytes_eqb k c) eqn:E; cbn; rewrite E; [reflexivity | exact IH].
+Qed.
+
+Lemma pc_assoc_put_other : forall c d x es, c <> d -> pc_assoc d (pc_put c x es) = pc_assoc d es.
+Proof.
+  intros c d x es Hcd. induction es as [|[k n] es IH]; cbn.
+  - apply pc_bytes_eqb_false in Hcd. now rewrite Hcd.
+  - destruct (pc_bytes_eqb k c) eqn:E; cbn.
+    + apply pc_bytes_eqb_eq in E. subst k. apply pc_bytes_eqb_false in Hcd. now rewrite Hcd.
+    + now rewrite IH.
+Qed.
+
+Lemma pc_assoc_del_same : forall c es, pc_assoc c (pc_del c es) = None.
+Proof.
+  intros c. induction es as [|[k n] es IH]; cbn; [reflexivity|].
+  destruct (pc_bytes_eqb k c) eqn:E; cbn; [exact IH | now rewrite E].
+Qed.
+
+Lemma pc_assoc_del_other : forall c d es, c <> d -> pc_assoc d (pc_del c es) = pc_assoc d es.
+Proof.
+  intros c d es Hcd. induction es as [|[k n] es IH]; cbn; [reflexivity|].
+  destruct (pc_bytes_eqb k c) eqn:E; cbn.
+  - apply pc_bytes_eqb_eq in E. subst k. apply pc_bytes_eqb_false in Hcd. now rewrite Hcd.
+  - now rewrite IH.
+Qed.
+
+(* one unfolding of pc_update on a directory *)
+Lemma pc_update_dir : forall c r v es,
+  pc_update (c :: r) v (PDir es) =
+  match r with
+  | [] => PDir (match v with Some x => pc_put c x es | None => pc_del c es end)
+  | _ => match pc_assoc c es with
+         | Some m => PDir (pc_put c (pc_update r v m) es)
+         | None => PDir es
+         end
+  end.
+Proof. intros c r v es. destruct r; reflexivity. Qed.
+
+Lemma pc_update_is_dir : forall c r v es, exists es', pc_update (c :: r) v (PDir es) = PDir es'.
+Proof.
+  intros c r v es. rewrite pc_update_dir. destruct r as [|c2 r].
+  - eexists; reflexivity.
+  - destruct (pc_assoc c es); eexists; reflexivity.
+Qed.
+
+(* what pc_update does to the entry list of the directory it starts in *)
+Lemma pc_update_assoc_other : forall c r v es es' d,
+  pc_update (c :: r) v (PDir es) = PDir es' -> c <> d -> pc_assoc d es' = pc_assoc d es.
+Proof.
+  intros c r v es es' d H Hcd. rewrite pc_update_dir in H. destruct r as [|c2 r].
+  - injection H as <-. destruct v; [now apply pc_assoc_put_other | now apply pc_assoc_del_other].
+  - destruct (pc_assoc c es); injection H as <-; [now apply pc_assoc_put_other | reflexivity].
+Qed.
+
+(* a change at p leaves every directory that p is not a prefix of - in particular
+   p's own ancestors - a directory *)
+Lemma pc_update_spares : forall p v fs cwd,
+  pc_is_prefix p cwd = false -> pc_dir_at fs cwd -> pc_dir_at (pc_update p v fs) cwd.
+Proof.
+  induction p as [|c r IH]; intros v fs cwd Hp [es0 Hd]; [discriminate Hp|].
+  destruct cwd as [|d cw].
+  - cbn in Hd. injection Hd as ->. destruct (pc_update_is_dir c r v es0) as [es' ->]. now exists es'.
+  - destruct fs as [es| |t]; try discriminate Hd. cbn [pc_descend] in Hd.
+    destruct (pc_assoc d es) as [m|] eqn:Em; [|discriminate Hd].
+    cbn [pc_is_prefix] in Hp.
+    destruct (pc_bytes_eqb c d) eqn:Ecd.
+    + apply pc_bytes_eqb_eq in Ecd. subst d. cbn [andb] in Hp.
+      rewrite pc_update_dir. destruct r as [|c2 r]; [discriminate Hp|].
+      rewrite Em. unfold pc_dir_at. cbn [pc_descend]. rewrite pc_assoc_put_same.
+      apply (IH v m cw Hp). now exists es0.
+    + apply pc_bytes_eqb_false in Ecd.
+      destruct (pc_update_is_dir c r v es) as [es' He]. rewrite He.
+      unfold pc_dir_at. cbn [pc_descend]. rewrite (pc_update_assoc_other _ _ _ _ _ d He Ecd), Em.
+      now exists es0.
+Qed.
+
+Lemma pc_path_valid_nonempty : forall p, pc_path_valid p = true -> p <> [].
+Proof. intros [|c p] H; [discriminate H | discriminate]. Qed.
+
+Lemma pc_prefix_of_nil : forall p, p <> [] -> pc_is_prefix p [] = false.
+Proof. intros [|c p] H; [contradiction | reflexivity]. Qed.
+
+Lemma pc_apply_spares : forall o fs cwd,
+  pc_op_spares cwd o -> pc_dir_at fs cwd -> pc_dir_at (pc_apply o fs) cwd.
+Proof.
+  intros o fs cwd Hs Hd. destruct o as [p k|p|p q|p t]; cbn [pc_apply pc_op_spares] in *.
+  - destruct (_ && _); [now apply pc_update_spares | exact Hd].
+  - destruct (_ && _); [now apply pc_update_spares | exact Hd].
+  - destruct Hs as [Hp Hq]. destruct (_ && _); [|exact Hd].
+    destruct (pc_descend fs p); [|exact Hd]. apply pc_update_spares; [exact Hq|]. now apply pc_update_spares.
+  - destruct (_ && _); [|exact Hd]. destruct (pc_descend fs p) as [[| |t0]|]; try exact Hd. now apply pc_update_spares.
+Qed.
+
+(* the root stays a directory whatever the operation (no operation has the empty path) *)
+Lemma pc_apply_root : forall o fs, pc_dir_at fs [] -> pc_dir_at (pc_apply o fs) [].
+Proof.
+  intros o fs Hd. destruct o as [p k|p|p q|p t]; cbn [pc_apply].
+  - destruct (pc_path_valid p) eqn:Ep; [|exact Hd]. cbn [andb].
+    destruct (_ && _); [|exact Hd]. apply pc_update_spares; [|exact Hd]. apply pc_prefix_of_nil. now apply pc_path_valid_nonempty.
+  - destruct (pc_path_valid p) eqn:Ep; [|exact Hd]. cbn [andb].
+    destruct (pc_exists fs p); [|exact Hd]. apply pc_update_spares; [|exact Hd]. apply pc_prefix_of_nil. now apply pc_path_valid_nonempty.
+  - destruct (pc_path_valid p) eqn:Ep; [|exact Hd]. destruct (pc_path_valid q) eqn:Eq; [|exact Hd]. cbn [andb].
+    destruct (_ && _); [|exact Hd]. destruct (pc_descend fs p); [|exact Hd].
+    apply pc_update_spares; [apply pc_prefix_of_nil; now apply pc_path_valid_nonempty|].
+    apply pc_update_spares; [apply pc_prefix_of_nil; now apply pc_path_valid_nonempty | exact Hd].
+  - destruct (pc_path_valid p) eqn:Ep; [|exact Hd]. cbn [andb]. destruct (pc_target_valid t); [|exact Hd].
+    destruct (pc_descend fs p) as [[| |t0]|]; try exact Hd.
+    apply pc_update_spares; [|exact Hd]. apply pc_prefix_of_nil. now apply pc_path_valid_nonempty.
+Qed.
+
+Lemma pc_apply_dirs : forall o fs cwd,
+  pc_op_spares cwd o -> pc_dir_at fs [] -> pc_dir_at fs cwd ->
+  pc_dir_at (pc_apply o fs) [] /\ pc_dir_at (pc_apply o fs) cwd.
+Proof. intros o fs cwd Hs Hr Hc. split; [exact (pc_apply_root o fs Hr) | exact (pc_apply_spares o fs cwd Hs Hc)]. Qed.
+
+Lemma pc_after_dirs : forall cwd pre fs upd,
+  pc_dir_at fs [] -> pc_dir_at fs cwd -> Forall (pc_ev_spares cwd) pre ->
+  pc_dir_at (fst (pc_after (fs, upd) pre)) [] /\ pc_dir_at (fst (pc_after (fs, upd) pre)) cwd.
+Proof.
+  intros cwd. induction pre as [|e pre IH]; intros fs upd Hr Hc Hs; [now split|].
+  inversion Hs as [|? ? He Hpre]. subst. destruct e as [o|u|rq]; cbn [pc_after fst snd].
+  - apply IH; [now apply pc_apply_root | now apply pc_apply_spares | exact Hpre].
+  - now apply IH.
+  - now apply IH.
+Qed.
+
+(* ---------------------------------------------------------------- histories *)
+Lemma pc_run_app : forall cwd api pre post s,
+  pc_run cwd api s (pre ++ post) = pc_run cwd api s pre ++ pc_run cwd api (pc_after s pre) post.
+Proof.
+  intros cwd api. induction pre as [|e pre IH]; intros post s; [reflexivity|].
+  destruct e as [o|u|rq]; cbn [app pc_run pc_step pc_after]; rewrite IH; reflexivity.
+Qed.
+
+Lemma pc_run_length : forall cwd api pre s, length (pc_run cwd api s pre) = pc_requests pre.
+Proof.
+  intros cwd api. induction pre as [|e pre IH]; intro s; [reflexivity|].
+  destruct e as [o|u|rq]; cbn [pc_run pc_step pc_requests length]; now rewrite IH.
+Qed.
+
+(* every answer of a history is the answer of Processor::process_request in the
+   tree, and with the configuration, that the events before it have led to *)
+Lemma pc_run_answer : forall cwd api s pre rq post,
+  pc_run cwd api s (pre ++ EReq rq :: post) =
+  pc_run cwd api s pre
+  ++ pc_handle (fst (pc_after s pre)) cwd api (snd (pc_after s pre)) rq
+  :: pc_run cwd api (pc_after s pre) post.
+Proof. intros. rewrite pc_run_app. reflexivity. Qed.
+
+Lemma pc_run_nth : forall cwd api s pre rq post,
+  nth_error (pc_run cwd api s (pre ++ EReq rq :: post)) (pc_requests pre) =
+  Some (pc_handle (fst (pc_after s pre)) cwd api (snd (pc_after s pre)) rq).
+Proof.
+  intros. rewrite pc_run_answer, <- (pc_run_length cwd api pre s).
+  rewrite nth_error_app2 by apply le_n. now rewrite PeanoNat.Nat.sub_diag.
+Qed.
+
+(* two histories that lead to the same tree and the same configuration get the same answer *)
+Lemma pc_run_only_current : forall cwd api s1 s2 pre1 pre2 rq post1 post2,
+  pc_after s1 pre1 = pc_after s2 pre2 ->
+  nth_error (pc_run cwd api s1 (pre1 ++ EReq rq :: post1)) (pc_requests pre1) =
+  nth_error (pc_run cwd api s2 (pre2 ++ EReq rq :: post2)) (pc_requests pre2).
+Proof. intros. rewrite !pc_run_nth. now rewrite H. Qed.
+
+Lemma pc_history_confined : forall cwd api fs0 upd0 pre rq post st enq p,
+  pc_dir_at fs0 [] -> pc_dir_at fs0 cwd -> Forall (pc_ev_spares cwd) pre ->
+  nth_error (pc_run cwd api (fs0, upd0) (pre ++ EReq rq :: post)) (pc_requests pre) = Some (Some (st, enq)) ->
+  In p enq ->
+  exists d dir k nd n,
+    snd (pc_after (fs0, upd0) pre) = Some d /\
+    pc_canon (fst (pc_after (fs0, upd0) pre)) cwd d = inr dir /\ p = dir ++ k /\
+    pc_descend (fst (pc_after (fs0, upd0) pre)) dir = Some nd /\ pc_is_link nd = false /\
+    pc_descend nd k = Some n /\ pc_is_link n = false.
+Proof.
+  intros cwd api fs0 upd0 pre rq post st enq p Hr Hc Hs H Hin.
+  rewrite pc_run_nth in H. injection H as H.
+  destruct (pc_after_dirs cwd pre fs0 upd0 Hr Hc Hs) as [Hr' Hc'].
+  exact (pc_handle_confined _ _ _ _ _ _ _ _ Hr' Hc' H Hin).
+Qed.
+
+Lemma pc_handle_to_queue : forall root cwd api upd rq,
+  pc_to_queue api rq -> pc_handle root cwd api upd rq = Some (pc_queue root cwd upd rq).
+Proof.
+  intros root cwd api upd rq [Hg (action & rest & Ha & Hq)]. unfold pc_handle. now rewrite Hg, Ha, Hq.
+Qed.
+
+(* a name inside what the configured directory resolves to NOW is accepted ... *)
+Lemma pc_history_inside_accepted : forall cwd api s pre rq post d f dir k,
+  pc_to_queue api rq ->
+  snd (pc_after s pre) = Some d ->
+  pc_get_file (rq_query rq) = PExact f -> pc_is_abs f = false ->
+  pc_canon (fst (pc_after s pre)) cwd d = inr dir ->
+  pc_canon (fst (pc_after s pre)) cwd (pc_push (pc_render dir) f) = inr (dir ++ k) ->
+  nth_error (pc_run cwd api s (pre ++ EReq rq :: post)) (pc_requests pre) =
+  Some (Some (pc_status (rq_mode rq), [dir ++ k])).
+Proof.
+  intros cwd api s pre rq post d f dir k Hq Hu Hf Ha Hd Hfull.
+  rewrite pc_run_nth, (pc_handle_to_queue _ _ _ _ _ Hq). unfold pc_queue.
+  assert (E : pc_decide (fst (pc_after s pre)) cwd (snd (pc_after s pre)) (pc_get_file (rq_query rq)) = PAccept (dir ++ k)).
+  { apply pc_decide_accept_iff. exists d, f, dir, k. repeat split; assumption. }
+  rewrite E. unfold pc_status. reflexivity.
+Qed.
+
+(* ... and one that resolves outside it, or not at all, is answered 400 with nothing enqueued *)
+Lemma pc_history_outside_rejected : forall cwd api s pre rq post d f dir,
+  pc_to_queue api rq ->
+  snd (pc_after s pre) = Some d ->
+  pc_get_file (rq_query rq) = PExact f ->
+  pc_canon (fst (pc_after s pre)) cwd d = inr dir ->
+  (forall full, pc_canon (fst (pc_after s pre)) cwd (pc_push (pc_render dir) f) = inr full -> ~ exists k, full = dir ++ k) ->
+  nth_error (pc_run cwd api s (pre ++ EReq rq :: post)) (pc_requests pre) = Some (Some (400, [])).
+Proof.
+  intros cwd api s pre rq post d f dir Hq Hu Hf Hd Hout.
+  rewrite pc_run_nth, (pc_handle_to_queue _ _ _ _ _ Hq). unfold pc_queue.
+  destruct (pc_decide _ cwd _ _) as [why|full] eqn:E; [reflexivity|]. exfalso.
+  apply pc_decide_accept_iff in E as (d' & f' & dir' & k & Hu' & Hf' & _ & Hd' & Hfull & Hk).
+  rewrite Hu in Hu'. injection Hu' as <-. rewrite Hf in Hf'. injection Hf' as <-.
+  rewrite Hd in Hd'. injection Hd' as <-. apply (Hout full Hfull). now exists k.
+Qed.
+
+(* ---------------------------------------------------------------- no operation brings a NUL byte into a name *)
+Lemma pc_nonul_subtree : forall fs p n, pc_nonul_names fs -> pc_descend fs p = Some n -> pc_nonul_names n.
+Proof.
+  intros fs p n Hfs Hp q m Hq.
+  assert (H : pc_descend fs (p ++ q) = Some m) by (now rewrite pc_descend_app, Hp).
+  apply Hfs in H. now apply Forall_app in H as [_ H].
+Qed.
+
+Lemma pc_nonul_dir : forall es,
+  (forall c n, pc_assoc c es = Some n -> ~ In 0 c /\ pc_nonul_names n) -> pc_nonul_names (PDir es).
+Proof.
+  intros es H q m Hq. destruct q as [|c q]; [constructor|]. cbn [pc_descend] in Hq.
+  destruct (pc_assoc c es) as [n|] eqn:E; [|discriminate Hq]. destruct (H c n E) as [Hc Hn].
+  constructor; [exact Hc | now apply (Hn q m)].
+Qed.
+
+Lemma pc_nonul_entry : forall es c n, pc_nonul_names (PDir es) -> pc_assoc c es = Some n -> ~ In 0 c /\ pc_nonul_names n.
+Proof.
+  intros es c n H E. split.
+  - assert (Hd : pc_descend (PDir es) [c] = Some n) by (cbn; now rewrite E).
+    apply H in Hd. now inversion Hd.
+  - apply (pc_nonul_subtree (PDir es) [c] n H). cbn. now rewrite E.
+Qed.
+
+Lemma pc_update_nonul : forall p v fs,
+  Forall (fun c => ~ In 0 c) p -> (forall x, v = Some x -> pc_nonul_names x) ->
+  pc_nonul_names fs -> pc_nonul_names (pc_update p v fs).
+Proof.
+  induction p as [|c r IH]; intros v fs Hp Hv Hfs.
+  - cbn. destruct v as [x|]; [now apply Hv | exact Hfs].
+  - inversion Hp as [|? ? Hc Hr]. subst.
+    destruct fs as [es| |t]; try exact Hfs. rewrite pc_update_dir.
+    assert (Hput : forall x, pc_nonul_names x -> pc_nonul_names (PDir (pc_put c x es))).
+    { intros x Hx. apply pc_nonul_dir. intros d n E.
+      destruct (pc_bytes_eqb c d) eqn:Ecd.
+      - apply pc_bytes_eqb_eq in Ecd. subst d. rewrite pc_assoc_put_same in E. injection E as <-. now split.
+      - apply pc_bytes_eqb_false in Ecd. rewrite pc_assoc_put_other in E by exact Ecd. now apply (pc_nonul_entry es). }
+    destruct r as [|c2 r].
+    + destruct v as [x|]; [apply Hput; now apply Hv|].
+      apply pc_nonul_dir. intros d n E.
+      destruct (pc_bytes_eqb c d) eqn:Ecd.
+      * apply pc_bytes_eqb_eq in Ecd. subst d. rewrite pc_assoc_del_same in E. discriminate E.
+      * apply pc_bytes_eqb_false in Ecd. rewrite pc_assoc_del_other in E by exact Ecd. now apply (pc_nonul_entry es).
+    + destruct (pc_assoc c es) as [m|] eqn:Em; [|exact Hfs].
+      apply Hput. apply IH; [exact Hr | exact Hv |]. now apply (pc_nonul_entry es c m).
+Qed.
+
+Lemma pc_name_valid_nonul : forall c, pc_name_valid c = true -> ~ In 0 c.
+Proof.
+  intros c H Hin. unfold pc_name_valid in H.
+  repeat (apply andb_true_iff in H as [H ?]).
+  match goal with X : negb (existsb (N.eqb 0) c) = true |- _ => apply negb_true_iff in X; rename X into Hz end.
+  assert (Ht : existsb (N.eqb 0) c = true) by (apply existsb_exists; exists 0; split; [exact Hin | reflexivity]).
+  rewrite Ht in Hz. discriminate Hz.
+Qed.
+
+Lemma pc_path_valid_nonul : forall p, pc_path_valid p = true -> Forall (fun c => ~ In 0 c) p.
+Proof.
+  intros p H. destruct p as [|c p]; [discriminate H|]. unfold pc_path_valid in H.
+  apply Forall_forall. intros d Hd. apply pc_name_valid_nonul. rewrite forallb_forall in H. now apply H.
+Qed.
+
+Lemma pc_nonul_leaf : forall n, (forall es, n <> PDir es) -> pc_nonul_names n.
+Proof.
+  intros n Hn q m Hq. destruct q as [|c q]; [constructor|].
+  destruct n as [es| |t]; [now contradiction (Hn es) | discriminate Hq | discriminate Hq].
+Qed.
+
+Lemma pc_nonul_of_kind : forall k, pc_nonul_names (pc_node_of_kind k).
+Proof.
+  intros [| |t]; cbn.
+  - apply pc_nonul_dir. intros c n E. discriminate E.
+  - apply pc_nonul_leaf. intros es E. discriminate E.
+  - apply pc_nonul_leaf. intros es E. discriminate E.
+Qed.
+
+Lemma pc_apply_nonul : forall o fs, pc_nonul_names fs -> pc_nonul_names (pc_apply o fs).
+Proof.
+  intros o fs Hfs. destruct o as [p k|p|p q|p t]; cbn [pc_apply].
+  - destruct (pc_path_valid p) eqn:Ep; [|exact Hfs]. cbn [andb]. destruct (_ && _); [|exact Hfs].
+    apply pc_update_nonul; [now apply pc_path_valid_nonul | | exact Hfs].
+    intros x E. injection E as <-. apply pc_nonul_of_kind.
+  - destruct (pc_path_valid p) eqn:Ep; [|exact Hfs]. cbn [andb]. destruct (pc_exists fs p); [|exact Hfs].
+    apply pc_update_nonul; [now apply pc_path_valid_nonul | discriminate | exact Hfs].
+  - destruct (pc_path_valid p) eqn:Ep; [|exact Hfs]. destruct (pc_path_valid q) eqn:Eq; [|exact Hfs]. cbn [andb].
+    destruct (_ && _); [|exact Hfs]. destruct (pc_descend fs p) as [n|] eqn:En; [|exact Hfs].
+    apply pc_update_nonul; [now apply pc_path_valid_nonul | |].
+    + intros x E. injection E as <-. now apply (pc_nonul_subtree fs p n).
+    + apply pc_update_nonul; [now apply pc_path_valid_nonul | discriminate | exact Hfs].
+  - destruct (pc_path_valid p) eqn:Ep; [|exact Hfs]. cbn [andb]. destruct (pc_target_valid t); [|exact Hfs].
+    destruct (pc_descend fs p) as [[| |t0]|]; try exact Hfs.
+    apply pc_update_nonul; [now apply pc_path_valid_nonul | | exact Hfs].
+    intros x E. injection E as <-. apply pc_nonul_leaf. intros es E. discriminate E.
+Qed.
+
+Lemma pc_after_nonul : forall pre fs upd, pc_nonul_names fs -> pc_nonul_names (fst (pc_after (fs, upd) pre)).
+Proof.
+  induction pre as [|e pre IH]; intros fs upd H; [exact H|].
+  destruct e as [o|u|rq]; cbn [pc_after fst snd]; apply IH; [now apply pc_apply_nonul | exact H | exact H].
+Qed.
+
+(* whatever the tree has gone through: the text put on the queue is canonical in the tree of the moment *)
+Lemma pc_history_text_canonical : forall cwd api fs0 upd0 pre rq post st enq p,
+  pc_dir_at fs0 [] -> pc_dir_at fs0 cwd -> pc_nonul_names fs0 -> Forall (pc_ev_spares cwd) pre ->
+  nth_error (pc_run cwd api (fs0, upd0) (pre ++ EReq rq :: post)) (pc_requests pre) = Some (Some (st, enq)) ->
+  In p enq ->
+  pc_observe (fst (pc_after (fs0, upd0) pre)) cwd p = (inr p, true).
+Proof.
+  intros cwd api fs0 upd0 pre rq post st enq p Hr Hc Hn Hs H Hin.
+  rewrite pc_run_nth in H. injection H as H.
+  destruct (pc_after_dirs cwd pre fs0 upd0 Hr Hc Hs) as [Hr' Hc'].
+  exact (pc_handle_enqueued_text_canonical _ _ _ _ _ _ _ _ Hr' Hc' (pc_after_nonul pre fs0 upd0 Hn) H Hin).
+Qed.
+
+(* ---------------------------------------------------------------- what the operations do *)
+Lemma pc_descend_parent : forall fs p n, p <> [] -> pc_descend fs p = Some n -> pc_parent_is_dir fs p = true.
+Proof.
+  intros fs p n Hne H. rewrite (app_removelast_last [] Hne) in H. rewrite pc_descend_app in H.
+  match type of H with match ?x with _ => _ end = _ => destruct x as [m|] eqn:Em end; [|discriminate H].
+  apply pc_descend_one_dir in H as [es ->]. unfold pc_parent_is_dir.
+  change (pc_descend fs (removelast p)) with (pc_descend fs (@removelast pc_name p)) in Em. now rewrite Em.
+Qed.
+
+Lemma pc_update_at : forall p v fs, p <> [] -> pc_parent_is_dir fs p = true -> pc_descend (pc_update p v fs) p = v.
+Proof.
+  induction p as [|c r IH]; intros v fs Hne Hpar; [contradiction|].
+  unfold pc_parent_is_dir in Hpar. destruct r as [|c2 r].
+  - cbn in Hpar. destruct fs as [es| |t]; try discriminate Hpar. rewrite pc_update_dir. cbn [pc_descend].
+    destruct v as [x|]; [now rewrite pc_assoc_put_same | now rewrite pc_assoc_del_same].
+  - change (removelast (c :: c2 :: r)) with (c :: removelast (c2 :: r)) in Hpar.
+    destruct fs as [es| |t]; try discriminate Hpar. cbn [pc_descend] in Hpar.
+    destruct (pc_assoc c es) as [m|] eqn:Em; [|discriminate Hpar].
+    rewrite pc_update_dir, Em. cbn [pc_descend]. rewrite pc_assoc_put_same.
+    apply IH; [discriminate|]. unfold pc_parent_is_dir. exact Hpar.
+Qed.
+
+(* a change at p is invisible at every path that is neither above nor below p *)
+Lemma pc_update_frame : forall p v fs q,
+  pc_is_prefix p q = false -> pc_is_prefix q p = false -> pc_descend (pc_update p v fs) q = pc_descend fs q.
+Proof.
+  induction p as [|c r IH]; intros v fs q Hpq Hqp; [discriminate Hpq|].
+  destruct q as [|d q]; [discriminate Hqp|].
+  destruct fs as [es| |t]; try reflexivity.
+  cbn [pc_is_prefix] in Hpq, Hqp.
+  destruct (pc_bytes_eqb c d) eqn:Ecd.
+  - apply pc_bytes_eqb_eq in Ecd. subst d. rewrite pc_bytes_eqb_refl in Hqp. cbn [andb] in Hpq, Hqp.
+    rewrite pc_update_dir. destruct r as [|c2 r]; [discriminate Hpq|].
+    destruct (pc_assoc c es) as [m|] eqn:Em; [|reflexivity].
+    cbn [pc_descend]. rewrite pc_assoc_put_same, Em. now apply IH.
+  - apply pc_bytes_eqb_false in Ecd.
+    destruct (pc_update_is_dir c r v es) as [es' He]. rewrite He. cbn [pc_descend].
+    now rewrite (pc_update_assoc_other _ _ _ _ _ d He Ecd).
+Qed.
+
+Lemma pc_is_prefix_app : forall a b, pc_is_prefix a b = true -> exists k, b = a ++ k.
+Proof.
+  induction a as [|x a IH]; intros b H; [now exists b|].
+  destruct b as [|y b]; [discriminate H|]. cbn in H. apply andb_true_iff in H as [Hxy H].
+  apply pc_bytes_eqb_eq in Hxy. subst y. destruct (IH b H) as [k ->]. now exists k.
+Qed.
+
+Lemma pc_is_prefix_removelast : forall p q, q <> [] -> pc_is_prefix p q = false -> pc_is_prefix p (removelast q) = false.
+Proof.
+  induction p as [|c p IH]; intros q Hne H; [discriminate H|].
+  destruct q as [|d q]; [contradiction|]. destruct q as [|d2 q]; [reflexivity|].
+  change (removelast (d :: d2 :: q)) with (d :: removelast (d2 :: q)). cbn [pc_is_prefix] in *.
+  destruct (pc_bytes_eqb c d); [|reflexivity]. cbn [andb] in *. apply IH; [discriminate | exact H].
+Qed.
+
+Lemma pc_apply_create : forall fs p k,
+  pc_path_valid p = true -> pc_kind_valid k = true -> pc_parent_is_dir fs p = true -> pc_descend fs p = None ->
+  pc_descend (pc_apply (OCreate p k) fs) p = Some (pc_node_of_kind k) /\
+  forall q, pc_is_prefix p q = false -> pc_is_prefix q p = false ->
+            pc_descend (pc_apply (OCreate p k) fs) q = pc_descend fs q.
+Proof.
+  intros fs p k Hp Hk Hpar Hno. cbn [pc_apply]. unfold pc_exists. rewrite Hp, Hk, Hpar, Hno. cbn [andb negb]. split.
+  - apply pc_update_at; [now apply pc_path_valid_nonempty | exact Hpar].
+  - intros q H1 H2. now apply pc_update_frame.
+Qed.
+
+Lemma pc_apply_remove : forall fs p n,
+  pc_path_valid p = true -> pc_descend fs p = Some n ->
+  pc_descend (pc_apply (ORemove p) fs) p = None /\
+  forall q, pc_is_prefix p q = false -> pc_is_prefix q p = false ->
+            pc_descend (pc_apply (ORemove p) fs) q = pc_descend fs q.
+Proof.
+  intros fs p n Hp Hn. cbn [pc_apply]. unfold pc_exists. rewrite Hp, Hn. cbn [andb]. split.
+  - apply pc_update_at; [now apply pc_path_valid_nonempty |].
+    apply (pc_descend_parent fs p n); [now apply pc_path_valid_nonempty | exact Hn].
+  - intros q H1 H2. now apply pc_update_frame.
+Qed.
+
+Lemma pc_apply_repoint : forall fs p t0 t,
+  pc_path_valid p = true -> pc_target_valid t = true -> pc_descend fs p = Some (PLink t0) ->
+  pc_descend (pc_apply (ORepoint p t) fs) p = Some (PLink t) /\
+  forall q, pc_is_prefix p q = false -> pc_is_prefix q p = false ->
+            pc_descend (pc_apply (ORepoint p t) fs) q = pc_descend fs q.
+Proof.
+  intros fs p t0 t Hp Ht Hn. cbn [pc_apply]. rewrite Hp, Ht, Hn. cbn [andb]. split.
+  - apply pc_update_at; [now apply pc_path_valid_nonempty |].
+    apply (pc_descend_parent fs p (PLink t0)); [now apply pc_path_valid_nonempty | exact Hn].
+  - intros q H1 H2. now apply pc_update_frame.
+Qed.
+
+Lemma pc_apply_rename : forall fs p q n,
+  pc_path_valid p = true -> pc_path_valid q = true -> pc_is_prefix p q = false ->
+  pc_parent_is_dir fs q = true -> pc_descend fs q = None -> pc_descend fs p = Some n ->
+  pc_descend (pc_apply (ORename p q) fs) q = Some n /\
+  pc_descend (pc_apply (ORename p q) fs) p = None /\
+  forall r, pc_is_prefix p r = false -> pc_is_prefix r p = false ->
+            pc_is_prefix q r = false -> pc_is_prefix r q = false ->
+            pc_descend (pc_apply (ORename p q) fs) r = pc_descend fs r.
+Proof.
+  intros fs p q n Hp Hq Hpq Hpar Hno Hn. cbn [pc_apply]. unfold pc_exists. rewrite Hp, Hq, Hpq, Hpar, Hno, Hn. cbn [andb negb].
+  assert (Hpne : p <> []) by now apply pc_path_valid_nonempty.
+  assert (Hqne : q <> []) by now apply pc_path_valid_nonempty.
+  assert (Hpar' : pc_parent_is_dir (pc_update p None fs) q = true).
+  { unfold pc_parent_is_dir in *. destruct (pc_descend fs (removelast q)) as [[es| |]|] eqn:E; try discriminate Hpar.
+    destruct (pc_update_spares p None fs (removelast q)) as [es' ->]; [now apply pc_is_prefix_removelast | now exists es | reflexivity]. }
+  assert (Hqp : pc_is_prefix q p = false).
+  { destruct (pc_is_prefix q p) eqn:E; [|reflexivity]. apply pc_is_prefix_app in E as [k ->].
+    rewrite pc_descend_app, Hno in Hn. discriminate Hn. }
+  split; [|split].
+  - now apply pc_update_at.
+  - rewrite pc_update_frame by assumption. apply pc_update_at; [exact Hpne|]. now apply (pc_descend_parent fs p n).
+  - intros r H1 H2 H3 H4. rewrite pc_update_frame by assumption. now apply pc_update_frame.
+Qed.
+
+(* ---------------------------------------------------------------- resolving once is not enough *)
+Lemma pc_resolve_once_refuted :
+  exists cwd api fs0 upd0 pre rq post st p dir,
+    pc_dir_at fs0 [] /\ pc_dir_at fs0 cwd /\ Forall (pc_ev_spares cwd) pre /\
+    nth_error (pc_run_once cwd api fs0 (pc_new_once fs0 cwd upd0) (pre ++ EReq rq :: post)) (pc_requests pre)
+      = Some (Some (st, [p])) /\
+    (exists d, snd (pc_after (fs0, upd0) pre) = Some d /\ pc_canon (fst (pc_after (fs0, upd0) pre)) cwd d = inr dir) /\
+    ~ (exists k, p = dir ++ k) /\
+    nth_error (pc_run cwd api (fs0, upd0) (pre ++ EReq rq :: post)) (pc_requests pre) = Some (Some (400, [])).
+Proof.
+  exists [], pc_wit_api, pc_wit_fs, pc_wit_upd, pc_wit_pre, pc_wit_one, pc_wit_post, 200, pc_wit_day1_one, pc_wit_day2.
+  split; [eexists; reflexivity|]. split; [eexists; reflexivity|].
+  split; [repeat constructor|].
+  split; [vm_compute; reflexivity|].
+  split; [eexists; split; vm_compute; reflexivity|].
+  split; [|vm_compute; reflexivity].
+  intros [k Hk]. vm_compute in Hk. discriminate Hk.
+Qed.
